@@ -295,9 +295,22 @@ class Queue(Greenlet):
             ret.append(thread.exception or thread.value)
         return ret
 
+    def _in_bounded_pool(self):
+        current = gevent.getcurrent()
+        for attr in ('store_pool', 'relay_pool'):
+            pool = getattr(self, attr, None)
+            if isinstance(pool, Pool) and current in pool:
+                return True
+        return False
+
     def _pool_spawn(self, which, func, *args, **kwargs):
         pool = getattr(self, which+'_pool', gevent)
         assert pool is not None
+        if isinstance(pool, Pool) and pool.full() and self._in_bounded_pool():
+            # A task that occupies a slot of a bounded pool must not block
+            # waiting for a slot: the slot holders would wait on each other
+            # (or on themselves) forever. Wait for the slot in a helper.
+            return gevent.spawn(pool.spawn, func, *args, **kwargs)
         return pool.spawn(func, *args, **kwargs)
 
     def _add_queued(self, entry):
